@@ -5,6 +5,31 @@ V = os.path.dirname(os.path.dirname(os.path.abspath(__file__)))
 props = [json.loads(l) for l in open(os.path.join(V, "properties.jsonl"))]
 TB = "Trusted: rustc's MIR construction and type checking (nightly 1.97, mir-opt-level=0), the checker's own abstract interpreter / rule code (validated against seeded mutants and benign edits), std collection semantics."
 CLAIMS = {
+ "C02": dict(
+   technique="abstract interpretation of every user-written grammar action joined with lalrpop's lowered productions (field-by-field wiring vs a role-based spec); DFA equality of token / trivia languages with independently written references; layout non-interference rule",
+   text="Static: each of the 65 user-written actions is interpreted with one symbolic value per production symbol, so every AST field is a term over production symbols; 150+ field obligations are compared with spec/wiring.json (names, flags, children and their order, qualified-name joining, flatten-only filtering, CommaSeparated order, type constructors). Layout independence is decided lexically (skipped patterns = Unicode whitespace runs, line and block comments, by DFA equality; token classes, priorities and the keyword rule) plus a non-interference rule: no field other than ranges / doc depends on a position capture, the input or the lookup.",
+   note=TB + " lalrpop 0.19.8 (vendored front-end, same version as Cargo.lock): generated tables implement the grammar, @L/@R are token boundaries.",
+   design="DESIGN.md section 4, C02"),
+ "C03": dict(
+   technique="DFA decisions on the token classes (equality, priorities, keyword rule); bounded exploration of the product of two LR automata (current grammar vs reference) built by lalrpop's front-end; path rules on recovery / error conversion; append-only effect rule",
+   text="Static: (a) lexical agreement and 'a keyword or reserved word can never be a name' are decided on DFAs; (b) the grammar's language equals the reviewed reference grammar's up to 22 (quick) / 26 (thorough) tokens, with and without recovery alternatives, by exhaustive exploration of pairs of LR configurations (a difference comes with a witness document); (c) every failure becomes an Error: recovery actions, from_parse_error table, add_content paths; validation only appends to / sorts diagnostics (every call on a Vec<Diagnostic> reachable from validation is classified) and results keep the stored vector; (d) stored identifiers originate from IDENT.",
+   note=TB + " lalrpop 0.19.8 (vendored front-end, same version as Cargo.lock): generated tables implement the grammar, @L/@R are token boundaries." + " A11 is bounded in the number of tokens.",
+   design="DESIGN.md section 4, C03"),
+ "C04": dict(
+   technique="provenance rules on range construction: abstract interpretation of grammar actions joined with production symbol positions (capture directly before / after the named symbol), tabulated constructors and error conversion, operand provenance of every Diagnostic / RelatedInfo aggregate",
+   text="Static: Position/Range constructors are tabulated; every Range::new in a grammar action takes untouched @L/@R captures with start before end (39 sites); ~100 range obligations state per production that the name range spans exactly the name symbol and the full range runs from the capture in front of the first symbol to the capture behind the last (children therefore nest); syntax diagnostics forward the offending token's own boundaries; the transact-code Error lies on the INTEGER; every validation diagnostic clones a range field of an AST node (or is the empty range at the type start).",
+   note=TB + " lalrpop 0.19.8 (vendored front-end, same version as Cargo.lock): generated tables implement the grammar, @L/@R are token boundaries." + " Numeric line/column computation is the line-col crate's.",
+   design="DESIGN.md section 4, C04"),
+ "C14": dict(
+   technique="necessary conditions only: path rules on the recovery actions, flatten-only body construction, lookahead-set rule on the LR automaton",
+   text="Static, necessary conditions: the three member-level recovery alternatives exist, push an Error and yield None; bodies keep all well-formed siblings in order (flatten only); in every LR state where `error` can be shifted inside a body, the recovery production is reduced on a lookahead set containing FIRST(member) and the closing brace, so parsing can continue with the next member. That lalrpop's token-dropping recovery resynchronises at the terminator for every garbage string, and that all syntax Errors lie inside the malformed member, is NOT decided.",
+   note=TB + " lalrpop 0.19.8 (vendored front-end, same version as Cargo.lock): generated tables implement the grammar, @L/@R are token boundaries." + " The dynamics of lalrpop_util's recovery are trusted, not analysed.",
+   design="DESIGN.md section 4, C14"),
+ "C18": dict(
+   technique="byte/char dimension typing of the doc-comment scanner on MIR; grammar-action wiring of `doc`; shape rule on get_javadoc",
+   text="Static, partial by design: (J1) every value used as a str index or subtracted from str::len in find_content_string is byte-typed (a counter advanced by a constant per char is char-typed and reported); (J2) for all documentable constructs doc = get_javadoc(input, capture that is the first symbol of the production), so the backward scan starts at the construct's first token; (J3) get_javadoc scans input[..pos] and maps through parse_javadoc. Which comment the 7-state backward scanner picks and the regex normalisation of the body are NOT decided.",
+   note=TB + " lalrpop 0.19.8 (vendored front-end, same version as Cargo.lock): generated tables implement the grammar, @L/@R are token boundaries.",
+   design="DESIGN.md section 4, C18"),
  "C19": dict(
    technique="serde attribute consistency analysis over the syntax tree of every type reachable from ast::Aidl (syn), with crate-local skip predicates and Default impls decided by abstract interpretation of their MIR",
    text="Static: for the 22 types reachable from ast::Aidl the derive lists, every #[serde(...)] attribute and every field type are checked: a field omitted under skip_serializing_if must have `default`, and the predicate's truth set (std predicates by catalogue, crate-local ones tabulated over all values of the field's type) must be exactly the value Default::default() produces; no one-sided attribute; field types within the round-trippable set.",
